@@ -91,7 +91,7 @@ def b_planets(rng, tier, k=0, n=1):
         yield ((pl, round(jd, 3), "inside-known-envelope" if inside else "beyond-known-envelope"), ok, det)
 
 
-@P.bounded_check("pluto-and-minor-bodies/direction", grid="Pluto 1885..2099 every 300 d (quick) / 30 d (thorough); minor bodies "
+@P.bounded_check("pluto-and-minor-bodies/direction", grid="Pluto 1885-01-01 .. 2099-12-31 incl. both ends, every 300 d (quick) / 30 d (thorough); minor bodies "
                  "q in {0.1, 0.5, 1, 3, 10, 30}, e in {0, .3, .7, .9, .97, .9799, .98, .99, 1-1e-11, 1.0}, 3 orientations, "
                  "times within +-50 yr of perihelion")
 def b_small(rng, tier):
@@ -102,9 +102,14 @@ def b_small(rng, tier):
     from pymeeus.Sun import Sun
     se, ce = 0.397777156, 0.917482062
     step = 30 if tier == "thorough" else 300
-    for yjd in range(int(J + (1885 - 2000) * 365.25) + 10, int(J + (2099 - 2000) * 365.25), step):
+    first, last = Epoch(1885, 1, 1.0).jde(), Epoch(2099, 12, 31.0).jde()
+    grid = [first, first + 0.1, first + 0.3, first + 1.0] + [float(v) for v in range(int(first) + 10, int(last), step)] + \
+           [Epoch(2099, 1, 1.0).jde(), Epoch(2099, 1, 2.0).jde(), Epoch(2099, 7, 1.0).jde(), last, last + 0.9]
+    for yjd in grid:
         e = Epoch(float(yjd))
         ok, det = True, None
+        # known finding: during the first light time (0.2 d) of 1885 the light-time shifted epoch falls before the range
+        env = "inside-known-envelope" if yjd < first + 0.25 else ""
         try:
             ra, dec, elon = Pluto.geocentric_position(e) if len(Pluto.geocentric_position(e)) == 3 else (Pluto.geocentric_position(e) + (None,))
             xs, ys, zs = Sun.rectangular_coordinates_j2000(e)
@@ -121,7 +126,7 @@ def b_small(rng, tier):
                 ok, det = False, ("Pluto direction", s)
         except Exception as ex:
             ok, det = False, repr(ex)
-        yield (("Pluto", yjd), ok, det)
+        yield (("Pluto", yjd, env if not ok else ""), ok, det)
 
     def kepler_pos(q, ecc, dt):
         """own two-body solution: (r, v) at dt days from perihelion"""
